@@ -294,8 +294,15 @@ impl<'a> Gen<'a> {
                     self.feat("star_pattern");
                     let nm = if self.rng.chance(1, 2) { n.clone().unwrap_or_default() } else { String::new() };
                     for (l, _) in fs { let l = l.clone().unwrap(); let all: Vec<Ty> = vs.iter().filter_map(|o| match o { Ty::Tup(on, ofs) if nm.is_empty() || on == n => ofs.iter().find(|(ol, _)| ol.as_deref() == Some(l.as_str())).map(|(_, t)| t.clone()), _ => None }).collect(); binds.push((l, Ty::union(all))); }
-                    // star binds every named field of whichever variant matches; keep to single-variant scrutinees so the binding set is known
-                    if vs.len() == 1 { return format!("{}*", nm); } else { for _ in 0..fs.len() { binds.pop(); } }
+                    // star binds every named field of whichever variant matches: on a single-variant scrutinee the binding set is known;
+                    // on a union the names differ per variant, so nothing it binds is offered to later code (but the slots it
+                    // allocates must still line up for everything that follows)
+                    if vs.len() == 1 { return format!("{}*", nm); } else { for _ in 0..fs.len() { binds.pop(); } if self.rng.chance(1, 2) {
+                        self.feat("star_pattern_on_a_union");
+                        // whatever x / y / k meant before is now in doubt (bound by some variants only): take the names out of play
+                        for l in FIELDS { binds.push((l.to_string(), Ty::Fn(Box::new(Ty::Int), Box::new(Ty::Tup(Some("Unusable".into()), vec![]))))); if !self.rec_fns.contains(&l.to_string()) { self.rec_fns.push(l.to_string()); } }
+                        return format!("{}*", nm);
+                    } }
                 }
                 // full tuple pattern: sub-patterns typed by the union of same-shaped variants
                 let shape_eq = |o: &Ty| matches!(o, Ty::Tup(on, ofs) if on == n && ofs.len() == fs.len() && ofs.iter().zip(fs.iter()).all(|(a, b)| a.0 == b.0));
